@@ -248,6 +248,9 @@ def flush_one(run, what, case, o, impl):
         run.mismatch(case, f"the model's text is not loadable by json.loads: {type(e).__name__}", o[:200])
         return True
     if got != loaded:
+        if not safe:
+            run.count("text:written-form-of-unsafe-value-differs(not judged)")
+            return True
         run.mismatch(case, loaded[:300], "model text denotes " + got[:300])
     run.count("text:bytes-identical" if model_text == data else "text:layout-differs")
     return True
